@@ -74,6 +74,9 @@ func cmdManifest() {
 		}
 		na = append(na, map[string]string{"property_id": id, "reason": r})
 	}
+	if na == nil {
+		na = []map[string]string{}
+	}
 	m := map[string]any{
 		"version":   1,
 		"setup_cmd": "cd /verif/tools/govc && GOFLAGS=-mod=vendor GOPROXY=off GOSUMDB=off GOTOOLCHAIN=local go build -o /verif/bin/govc .",
